@@ -50,6 +50,7 @@ fn main() {
             "nfs" => nfs::run(line),
             "chunk" => stream::run_chunk(line),
             "gchk" => stream::run_gchunk(line),
+            "grdr" => stream::run_grdr(line),
             "reader" => stream::run_reader(line),
             "hcobs" => hcobs_fam::run(line),
             "hmem" => hmem::run_hmem(line),
